@@ -55,49 +55,28 @@ def run(ck):
     ck.require(n >= 12, "only %d bounded-buffer flows found" % n)
 
     # ---------------- R2 ----------------
-    def at_least_edges(fn_, ref_pred):
-        """[(block, k, n)]: edges on which an expression whose references satisfy ref_pred is known to be >= n (n an integer constant),
-        whichever way the test is written (`x < 2` not taken, `x >= 2` taken, `x > 1` taken, ...)"""
-        out_ = []
-        for b in fn_.blocks.values():
-            t = b.term
-            if not t or len(b.succs) != 2 or not isinstance(t.get("rconst"), int) or isinstance(t.get("rconst"), bool):
-                continue
-            if not ref_pred([strip_tmpl(r) for r in (t.get("leafrefs") or t.get("refs") or [])]):
-                continue
-            for k in (0, 1):
-                r_ = lib.rel_on_edge(t, k)
-                if r_ is None or b.succs[k] is None:
-                    continue
-                # constant on the right (the extractor reports it as rconst); a constant on the left would have swapped the relation
-                if r_[1] == ">=":
-                    out_.append((b.id, k, t["rconst"]))
-                elif r_[1] == ">":
-                    out_.append((b.id, k, t["rconst"] + 1))
-        return out_
-
     for f in prog.find("Pistache::StreamBuf::snext", 1):
         derefs = [e for e in f.events("deref")]
         plus = [e for e in derefs if "+ 1" in ((e.get("ptr") or {}).get("t") or "") or "+1" in ((e.get("ptr") or {}).get("t") or "")]
         # the same look-ahead written as a subscript: gptr()[1]
         plus += [e for e in f.events("subscript") if (e.get("idx") or {}).get("const") == 1 or ((e.get("idx") or {}).get("t") or "").strip() == "1"]
         ck.require(plus, "look-ahead dereference not found in StreamBuf::snext")
-        two = [(bid, k) for bid, k, n_ in at_least_edges(f, lambda refs: ("c:std::basic_streambuf::egptr" in refs and "c:std::basic_streambuf::gptr" in refs) or
-                                                         "c:std::basic_streambuf::in_avail" in refs) if n_ >= 2]
+        avail2 = lambda r_: ("egptr" in (r_.get("t") or "") and "gptr" in (r_.get("t") or "").replace("egptr", "")) or "in_avail" in (r_.get("t") or "")
+        two = [(bid, k) for bid, k, n_ in lib.at_least_edges(f, avail2) if n_ >= 2]
         for e in plus:
             ok = any(cfg.edge_dominates(f, bid, k, e) for bid, k in two)
             ck.ob("C03-R2", "StreamBuf::snext/two-bytes-before-lookahead", ok, e.loc, f,
                   "reached only when two bytes are available (egptr() - gptr() >= 2)" if ok else "no dominating bail-out establishing two available bytes")
     nx = lib.single(prog, CUR + "next")
     sn = [e for e in nx.calls(lambda e: e.base_callee() == "Pistache::StreamBuf::snext")]
-    one = [(bid, k) for bid, k, n_ in at_least_edges(nx, lambda refs: any(r.endswith("::in_avail") for r in refs)) if n_ >= 1]
+    one = [(bid, k) for bid, k, n_ in lib.at_least_edges(nx, lambda r_: "in_avail" in (r_.get("t") or "")) if n_ >= 1]
     ok = bool(sn) and bool(one) and all(any(cfg.edge_dominates(nx, bid, k, e) for bid, k in one) for e in sn)
     ck.ob("C03-R2", "StreamCursor::next/guarded", ok, nx.loc, nx, "snext() only when in_avail() >= 1")
 
     # ---------------- R3 ----------------
     for f in prog.find("Pistache::ArrayStreamBuf::feed", 1):
         grow = [e for e in f.events("call") if (e.get("callee") or "") in ("std::back_inserter", "std::inserter") and strip_tmpl((e["args"][0].get("f") or "")).endswith("ArrayStreamBuf::bytes")]
-        tests = [b for b in f.blocks.values() if b.term and b.term.get("k") == "if" and any(strip_tmpl(r).endswith("ArrayStreamBuf::maxSize") for r in (b.term.get("refs") or []))]
+        tests = [b for b in f.blocks.values() if b.term and b.term.get("k") == "if" and any(strip_tmpl(r).endswith("ArrayStreamBuf::maxSize") for r in lib.term_refs(f, b.term))]
         # growth lies on one side of the limit test only (which side is the fitting one is decided by C14-R1)
         ok = bool(grow) and bool(tests) and all(any(cfg.edge_dominates(f, b.id, k_, g) for b in tests for k_ in (0, 1) if b.succs[k_] is not None) for g in grow)
         ck.ob("C03-R3", "ArrayStreamBuf::feed/limit-before-growth", ok, f.loc, f, "growth only past the maxSize check (details: C14-R1)")
